@@ -17,7 +17,7 @@ const ruleC04 = "rapid draws error specs (code 1-16 and out-of-range / non-numer
 
 func init() { registerScenarioProp("C04", ruleC04, checkC04) }
 
-var rawCodes = []string{"17", "18", "99", "2147483647", "4294967295", "4294967296", "-1", "abc", "", "0x10", "1e1", "5x"}
+var rawCodes = []string{codeRawNone, codeRawNone, "17", "18", "99", "2147483647", "4294967295", "4294967296", "-1", "abc", "", "0x10", "1e1", "5x"}
 
 func TestC04(t *testing.T) {
 	rapid.Check(t, func(t *rapid.T) {
